@@ -37,6 +37,7 @@ import (
 	"fmt"
 	"io"
 	"os"
+	"path/filepath"
 	"regexp"
 	"runtime"
 	"runtime/debug"
@@ -46,7 +47,9 @@ import (
 	"time"
 
 	"github.com/google/wuffs/lib/rac"
+	"github.com/google/wuffs/lib/raclz4"
 	"github.com/google/wuffs/lib/raczlib"
+	"github.com/google/wuffs/lib/raczstd"
 )
 
 type fileDesc struct {
@@ -56,6 +59,13 @@ type fileDesc struct {
 	ZMode      int    `json:"zmode"` // 0 no zeroes, 1 zero tails in some chunks, 2 also an all-zero chunk
 	IndexStart bool   `json:"index_start"`
 	Seed       uint64 `json:"seed"`
+	// Kind "" : written by rac.Writer + raczlib (Size, DChunk, ZMode);
+	// "built" : laid out by build.go from Runs and Tree;
+	// "chunkwriter" : Runs through rac.ChunkWriter.
+	Kind string          `json:"kind,omitempty"`
+	Runs [][4]int        `json:"runs,omitempty"` // [n, size, explicit, codec]
+	Tree json.RawMessage `json:"tree,omitempty"`
+	Page int             `json:"page,omitempty"`
 }
 
 type job struct {
@@ -65,6 +75,7 @@ type job struct {
 	Perturb     int        `json:"perturb"`
 	Par         int        `json:"par"`
 	TraceDir    string     `json:"trace_dir"`
+	DumpDir     string     `json:"dump_dir"` // write every file's bytes to <dump_dir>/<id>.rac
 	Files       []fileDesc `json:"files"`
 	ScriptsPath string     `json:"scripts_path"`
 	Conc        []int      `json:"conc"`
@@ -103,6 +114,8 @@ type builtFile struct {
 	data    []byte
 	encoded []byte
 	chunks  [][2]int64
+	codecs  []int  // per chunk, as rac.ChunkReader reports it: 0 Zeroes (Short or Long), 1 Zlib, 2 LZ4, 3 Zstandard, -1 other
+	crErr   string // rac.ChunkReader's error while listing the chunks ("" = listed to io.EOF)
 }
 
 type result struct {
@@ -121,10 +134,13 @@ type result struct {
 }
 
 type fileInfo struct {
-	Chunks   [][2]int64 `json:"chunks"`
-	Explicit []int      `json:"explicit"` // per chunk: bytes before its trailing (implicit) zeroes
+	Chunks   [][2]int64 `json:"chunks"`   // what rac.ChunkReader lists
+	Codecs   []int      `json:"codecs"`   // per listed chunk
+	CRErr    string     `json:"cr_err"`   // ChunkReader error while listing, "" if none
+	Explicit []int      `json:"explicit"` // per listed chunk: bytes of the decompressed data before its trailing zeroes
 	CSize    int        `json:"csize"`
 	DSize    int        `json:"dsize"`
+	Path     string     `json:"path,omitempty"`
 }
 
 func mix(a, b, c, d uint64) uint64 {
@@ -142,6 +158,58 @@ func mix(a, b, c, d uint64) uint64 {
 }
 
 func buildFile(d fileDesc) (*builtFile, error) {
+	var bf *builtFile
+	var err error
+	switch d.Kind {
+	case "built":
+		bf, err = buildFromDescription(d)
+	case "chunkwriter":
+		bf, err = buildWithChunkWriter(d)
+	case "":
+		bf, err = buildWithWriter(d)
+	default:
+		err = fmt.Errorf("unknown file kind %q", d.Kind)
+	}
+	if err != nil {
+		return nil, err
+	}
+	// What rac.ChunkReader makes of it.  An error here is recorded, not fatal:
+	// whether the file is valid is decided independently (walker + TLC).
+	cr := &rac.ChunkReader{ReadSeeker: bytes.NewReader(bf.encoded), CompressedSize: int64(len(bf.encoded))}
+	func() {
+		defer func() {
+			if e := recover(); e != nil {
+				bf.crErr = fmt.Sprintf("panic: %v", e)
+			}
+		}()
+		for len(bf.chunks) <= 1<<22 {
+			c, err := cr.NextChunk()
+			if err == io.EOF {
+				break
+			}
+			if err != nil {
+				bf.crErr = err.Error()
+				break
+			}
+			bf.chunks = append(bf.chunks, [2]int64{c.DRange[0], c.DRange[1]})
+			k := -1
+			switch c.Codec {
+			case rac.CodecZeroes, rac.Codec(1 << 63):
+				k = 0
+			case rac.CodecZlib:
+				k = 1
+			case rac.CodecLZ4:
+				k = 2
+			case rac.CodecZstandard:
+				k = 3
+			}
+			bf.codecs = append(bf.codecs, k)
+		}
+	}()
+	return bf, nil
+}
+
+func buildWithWriter(d fileDesc) (*builtFile, error) {
 	data := make([]byte, d.Size)
 	for i := range data {
 		data[i] = byte(1 + mix(d.Seed, uint64(i), 7, 3)%255)
@@ -191,19 +259,7 @@ func buildFile(d fileDesc) (*builtFile, error) {
 	if err := w.Close(); err != nil {
 		return nil, fmt.Errorf("rac.Writer.Close: %v", err)
 	}
-	bf := &builtFile{desc: d, data: data, encoded: buf.Bytes()}
-	cr := &rac.ChunkReader{ReadSeeker: bytes.NewReader(bf.encoded), CompressedSize: int64(len(bf.encoded))}
-	for {
-		c, err := cr.NextChunk()
-		if err == io.EOF {
-			break
-		}
-		if err != nil {
-			return nil, fmt.Errorf("ChunkReader.NextChunk: %v", err)
-		}
-		bf.chunks = append(bf.chunks, [2]int64{c.DRange[0], c.DRange[1]})
-	}
-	return bf, nil
+	return &builtFile{desc: d, data: data, encoded: buf.Bytes()}, nil
 }
 
 // perturbSrc is the RAC file as an io.ReadSeeker + io.ReaderAt whose ReadAt
@@ -250,7 +306,7 @@ func newReader(bf *builtFile, conc int, seed uint64, perturb bool) *rac.Reader {
 	return &rac.Reader{
 		ReadSeeker:     &perturbSrc{Reader: bytes.NewReader(bf.encoded), seed: seed, on: perturb && conc > 0},
 		CompressedSize: int64(len(bf.encoded)),
-		CodecReaders:   []rac.CodecReader{&raczlib.CodecReader{}},
+		CodecReaders:   []rac.CodecReader{&raczlib.CodecReader{}, &raclz4.CodecReader{}, &raczstd.CodecReader{}},
 		Concurrency:    conc,
 	}
 }
@@ -776,13 +832,23 @@ func main() {
 			os.Exit(3)
 		}
 		files[d.ID] = bf
-		fi := fileInfo{Chunks: bf.chunks, CSize: len(bf.encoded), DSize: len(bf.data)}
+		fi := fileInfo{Chunks: bf.chunks, Codecs: bf.codecs, CRErr: bf.crErr, CSize: len(bf.encoded), DSize: len(bf.data)}
 		for _, c := range bf.chunks {
-			e := int(c[1] - c[0])
-			for e > 0 && bf.data[int(c[0])+e-1] == 0 {
-				e--
+			e := -1 // a range outside the data: the list is wrong anyway
+			if c[0] >= 0 && c[0] <= c[1] && c[1] <= int64(len(bf.data)) {
+				e = int(c[1] - c[0])
+				for e > 0 && bf.data[int(c[0])+e-1] == 0 {
+					e--
+				}
 			}
 			fi.Explicit = append(fi.Explicit, e)
+		}
+		if j.DumpDir != "" {
+			fi.Path = filepath.Join(j.DumpDir, d.ID+".rac")
+			if err := os.WriteFile(fi.Path, bf.encoded, 0o644); err != nil {
+				fmt.Fprintln(os.Stderr, "racrreplay:", err)
+				os.Exit(3)
+			}
 		}
 		res.Files[d.ID] = fi
 	}
